@@ -16,7 +16,7 @@ pub fn prop() -> Prop {
         rule: "Terminating user programs (loops, subroutines, stack, PUTS/OUT/PUTSP) run once uninterrupted and then with interrupts from two scripted devices whose handlers (generated ISRs that save/restore the registers they use on R6, \
                compute, optionally store to a supervisor scratch word or read KBDR, and RTI) are installed at random vectors x03-xFF. Schedules: phase 0 = EXHAUSTIVE placement of one request (vector, priority 1-7) at every instruction boundary of short programs; \
                phase 1 = two requests at sampled (quick) boundary pairs incl. the same boundary with different priorities (arbitration), a higher one inside the first ISR (nesting) and an equal/lower one (gated); phase 2 = random one-shot and level-held schedules on longer programs, \
-               initial PSR priority 0-6, real and virtual traps; phase 3 = keyboard interrupts (IE set through KBSR, ISR reads KBDR) and seeded TimerDevices. A monitor called at every boundary (run_while tripwire) checks each transition: an entry happens iff a presented request's priority exceeds \
+               initial PSR priority 0-6, real and virtual traps, privilege checks on and (a quarter of the setups) off; phase 3 = keyboard interrupts (IE set through KBSR, ISR reads KBDR) and seeded TimerDevices. A monitor called at every boundary (run_while tripwire) checks each transition: an entry happens iff a presented request's priority exceeds \
                the PSR priority, for the highest one; at entry instructions_run is unchanged, PC = mem[x0100+v], supervisor mode, PSR priority = p, R6 = supervisor SP - 2 (stack switched when coming from user mode), mem[R6] = interrupted PC, mem[R6+1] = old PSR, frame depth +1. \
                At the end R0-R7, PSR, saved SP, user memory x3000-xFDFF and the display must equal the uninterrupted run. Non-trivial = run with at least one taken interrupt; distinct = distinct (program, schedule).",
         assumptions: &["ISRs are generated to be well-behaved (save/restore, RTI)", "no two devices present equal priorities at one boundary", "vectors x00-x02 are out of domain", "runs that hit the step bound are inconclusive cases, not violations"],
@@ -41,10 +41,10 @@ pub struct Req { pub at: u64, pub vect: u8, pub prio: u8, pub dev: usize, pub he
 #[derive(Default)]
 struct Mon { taken: u64, gated: u64, lost_arbitration: u64, max_nest: u64, nest: Vec<u8>, violation: Option<(String, String)>, boundaries: u64, trace_pcs: Vec<u16>, entries: Vec<(u64, u8, u8)> }
 
-struct Setup { prog: UserProg, isrs: BTreeMap<u8, String>, real: bool, prio0: u8, kbd: Vec<u8>, kbd_ie: bool, timer: Option<(u64, u32, u32, u8, u8)> }
+struct Setup { ign: bool, prog: UserProg, isrs: BTreeMap<u8, String>, real: bool, prio0: u8, kbd: Vec<u8>, kbd_ie: bool, timer: Option<(u64, u32, u32, u8, u8)> }
 
 fn build_sim(su: &Setup) -> Option<(Simulator, BufferedDisplay, BufferedKeyboard)> {
-    let flags = SimFlags { use_real_traps: su.real, machine_init: MachineInitStrategy::Known { value: 0x2222 }, ..Default::default() };
+    let flags = SimFlags { use_real_traps: su.real, ignore_privilege: su.ign, machine_init: MachineInitStrategy::Known { value: 0x2222 }, ..Default::default() };
     let mut sim = Simulator::new(flags);
     let ast = lc3_ensemble::parse::parse_ast(&su.prog.text).ok()?;
     let obj = lc3_ensemble::asm::assemble(ast).ok()?;
@@ -191,11 +191,11 @@ fn make_setup(rng: &mut Rng, small: bool, kbd_isr: bool) -> Setup {
         isrs.insert(v, gen_isr(rng, 0x1000 + 0x80 * i as u16, false));
     }
     if kbd_isr { isrs.insert(0x80, gen_isr(rng, 0x1800, true)); }
-    Setup { prog, isrs, real: rng.bool(), prio0: 0, kbd: vec![], kbd_ie: false, timer: None }
+    Setup { ign: rng.chance(1, 4), prog, isrs, real: rng.bool(), prio0: 0, kbd: vec![], kbd_ie: false, timer: None }
 }
 
 fn case_json(su: &Setup, reqs: &[Req]) -> Json {
-    Json::obj().set("program", su.prog.text.as_str()).set("real_traps", su.real).set("initial_priority", su.prio0 as u64)
+    Json::obj().set("program", su.prog.text.as_str()).set("real_traps", su.real).set("ignore_privilege", su.ign).set("initial_priority", su.prio0 as u64)
         .set("isrs", Json::Arr(su.isrs.iter().map(|(v, t)| Json::obj().set("vector", format!("x{v:02X}")).set("source", t.as_str())).collect()))
         .set("schedule", Json::Arr(reqs.iter().map(|r| Json::from(format!("boundary {} dev{} (x{:02X}, p{}){}", r.at, r.dev, r.vect, r.prio, if r.held { " held" } else { "" }))).collect()))
         .set("kbd", format!("{:?}", su.kbd)).set("kbd_ie", su.kbd_ie).set("timer", format!("{:?}", su.timer))
@@ -209,7 +209,7 @@ fn run_and_compare(ctx: &mut Ctx, su: &Setup, base: &Final, reqs: &[Req], class:
     if let Some((sig, what)) = compare_final(base, &fin) { ctx.violation(&format!("not-transparent:{sig}:{class}"), format!("{what} (taken {} interrupts at {:?})", mon.taken, mon.entries), case_json(su, reqs)); return None; }
     ctx.count_n("interrupts.taken", mon.taken); ctx.count_n("interrupts.gated-or-dropped", mon.gated); ctx.count_n("interrupts.arbitrated", mon.lost_arbitration);
     if mon.max_nest >= 2 { ctx.count("runs.nested"); }
-    if mon.taken > 0 { ctx.count(&format!("runs.with-interrupts.{class}")); }
+    if mon.taken > 0 { ctx.count(&format!("runs.with-interrupts.{class}")); if su.ign { ctx.count("runs.with-interrupts.ignore-privilege"); } }
     for (b, _, _) in &mon.entries { let pc = mon.trace_pcs[*b as usize]; ctx.count(if pc < 0x3000 { "entries.while-in-os-code" } else { "entries.while-in-user-code" }); }
     Some(mon)
 }
@@ -300,7 +300,7 @@ fn run(ctx: &mut Ctx) {
 fn guard(m: &Merged, _t: Tier) -> Vec<String> {
     let mut out = vec![];
     for k in ["exhaustive.programs", "interrupts.taken", "interrupts.gated-or-dropped", "interrupts.arbitrated", "runs.nested", "runs.with-interrupts.single", "runs.with-interrupts.pair", "runs.with-interrupts.random",
-              "runs.with-interrupts.keyboard", "runs.with-interrupts.timer", "entries.while-in-os-code", "entries.while-in-user-code"] { need(m, &mut out, k, 5); }
+              "runs.with-interrupts.keyboard", "runs.with-interrupts.timer", "entries.while-in-os-code", "entries.while-in-user-code", "runs.with-interrupts.ignore-privilege"] { need(m, &mut out, k, 5); }
     let sb = m.c("inconclusive.step-bound"); if sb * 10 > m.evaluations { out.push(format!("{sb} of {} runs hit the step bound", m.evaluations)); }
     out
 }
